@@ -230,10 +230,27 @@ def hazards : Bytes → Bool
        | _ => false)
     else false) || hazards t
 
+/-- remove block-quote markers (`^ {0,3}> ?`, repeatedly) from the start of a line -/
+def stripQuoteMarkers : Nat → Bytes → Bytes
+  | 0, l => l
+  | fuel + 1, l =>
+    let n := leadingSpaces l
+    if n ≤ 3 && (l.drop n).head? == some 0x3E then
+      let r := l.drop (n + 1)
+      stripQuoteMarkers fuel (if r.head? == some SP then r.drop 1 else r)
+    else l
+
+/-- a line that is whitespace-only, possibly after block-quote markers (how much
+of such a line belongs to an indented code block inside a list item differs
+between CommonMark implementations; the reference drops it) -/
+def whitespaceOnly (l : Bytes) : Bool :=
+  let r := stripQuoteMarkers l.length l
+  !r.isEmpty && r.all (· == SP)
+
 def lineHazards : Option Bytes → List Bytes → Bool
   | _, [] => false
   | prev, l :: ls =>
-    (!l.isEmpty && l.all (· == SP)) ||
+    whitespaceOnly l ||
     (isSetextLike l && (match prev with
         | some p => !(stripQuoteIndent p).isEmpty
         | none => false)) ||
